@@ -100,10 +100,9 @@ func (o *fieldOptions) toOptionsWithContext(key string, m Valuer, fullName strin
 		return &o.fieldOptionsWithContext, nil
 	}
 
-	return &fieldOptionsWithContext{
-		FromString: o.FromString,
-		Optional:   optional,
-		Options:    o.Options,
-		Default:    o.Default,
-	}, nil
+	// 复制全部选项（含 Range、EnvVar、Inherit），仅替换 Optional
+	opts := o.fieldOptionsWithContext
+	opts.Optional = optional
+
+	return &opts, nil
 }
